@@ -1,6 +1,7 @@
 (* Theory/RevSpec.v -- proofs for C22 over Model/RevSpec.v. *)
 From Coq Require Import List Arith Bool Lia ZArith Permutation.
-From BV Require Import Lib.Dag Theory.DagFacts Lib.DagMergeSort Theory.DagMergeSortFacts Model.RevSpec.
+From BV Require Import Lib.Dag Theory.DagFacts Lib.DagMergeSort Theory.DagMergeSortFacts
+                       Theory.DagMergeSortMainline Model.RevSpec.
 Import ListNotations.
 
 (* ---- the left-hand history never repeats a revision ----------------------- *)
@@ -780,3 +781,33 @@ Example ex_dotted :
   as_revision_id ex_branch (SAncestor (Some 3)) = Ok (Some 3) /\
   in_history ex_branch (STag 0) = Ok (None, Some 3).
 Proof. vm_compute. repeat split. Qed.
+
+(* ---- ms_good from distinct revnos alone (the numbering of the left-hand history is proved) ----- *)
+
+Theorem ms_good_from_distinct b (t : revid) : wf_dag (br_g b) = true -> br_tip b = Some t ->
+  t < length (br_g b) -> lefthand_present (br_g b) t = true ->
+  NoDup (ms_revnos (merge_sorted (br_g b) (br_tip b))) -> ms_good b.
+Proof.
+  intros W T L P ND. split; [exact ND|]. intros e He. rewrite T in He.
+  unfold lh. rewrite T. cbn [lefthand_opt].
+  destruct (merge_sorted_shape (br_g b) t W L P e He) as [[Hin Er]|[Hout L3]].
+  - split; [intros _; rewrite Er; reflexivity | intros _; exact Hin].
+  - split; [intros X; contradiction | intros X; rewrite X in L3; discriminate].
+Qed.
+
+(* the one-component revnos of the merge-sorted list are the positions that
+   revision_id_to_revno computes: the two numberings of the mainline agree *)
+Theorem mainline_revno_agrees b (t : revid) e : wf_dag (br_g b) = true -> br_tip b = Some t ->
+  t < length (br_g b) -> lefthand_present (br_g b) t = true ->
+  In e (merge_sorted (br_g b) (br_tip b)) -> In (e_id e) (lh b) ->
+  exists n, revision_id_to_revno b (Some (e_id e)) = Ok n /\ e_revno e = [n].
+Proof.
+  intros W T L P He Hm. rewrite T in He.
+  destruct (merge_sorted_shape (br_g b) t W L P e He) as [[Hin Er]|[Hout _]].
+  - unfold revision_id_to_revno. destruct (index_of_In (e_id e) (lh b) Hm) as [i Ei]. rewrite Ei.
+    eexists. split; [reflexivity|]. rewrite Er. f_equal.
+    pose proof (index_of_nth _ _ _ Ei) as Hn. unfold lh in Hn. rewrite T in Hn. cbn [lefthand_opt] in Hn.
+    rewrite (lefthand_skipn (br_g b) W i t (e_id e) Hn), skipn_length.
+    unfold last_revno, lh. rewrite T. reflexivity.
+  - exfalso. apply Hout. unfold lh in Hm. rewrite T in Hm. exact Hm.
+Qed.
